@@ -76,7 +76,8 @@ class Suite(BaseSuite):
         fixtures = {}
         for attr_name, attr in get_object_attributes(obj):
             if isinstance(attr, InjectedFixture):
-                fixtures[attr.fixture_name or attr_name] = attr_name
+                # several attributes may inject the same fixture
+                fixtures.setdefault(attr.fixture_name or attr_name, []).append(attr_name)
         return fixtures
 
     def is_disabled(self):
@@ -107,8 +108,8 @@ class Suite(BaseSuite):
 
     def inject_fixtures(self, fixtures):
         for fixture_name, fixture_value in fixtures.items():
-            attr_name = self._injected_fixtures[fixture_name]
-            setattr(self.obj, attr_name, fixture_value)
+            for attr_name in self._injected_fixtures[fixture_name]:
+                setattr(self.obj, attr_name, fixture_value)
 
     def add_test(self, test):
         if test.description in self._test_descriptions:
